@@ -2,10 +2,14 @@ package main
 
 import (
 	"fmt"
+	"strings"
+
+	"golang.org/x/tools/go/ssa"
 
 	"verif/checker/internal/core"
 )
 
+// dbg: prototype - storage writes that precede a failing return in system contract entry points
 func dbg(repo, rel string) {
 	p, err := core.Load(repo, []string{rel}, false, nil)
 	fmt.Println(err, p.Loaded)
@@ -15,17 +19,59 @@ func dbg(repo, rel string) {
 	}
 	wb := core.NewWriteBack(funcs[0].Pkg, funcs)
 	wb.Run()
-	fmt.Println("record types:", wb.RecordTypes())
-	fmt.Println("savers:", wb.SaverNames())
+	writes := func(in ssa.Instruction) bool {
+		cc := core.CallOf(in)
+		if cc == nil {
+			return false
+		}
+		if cc.IsInvoke() {
+			n := cc.Method.Name()
+			return n == "SetStorage" || n == "SetStorageForAddress" || n == "Transfer"
+		}
+		g := cc.StaticCallee()
+		return g != nil && g.Pkg == funcs[0].Pkg && len(g.Blocks) > 0 && !wb.ReadOnly(g)
+	}
 	n := 0
 	for _, fn := range funcs {
-		for _, f := range wb.Findings[fn] {
-			if wb.ReadOnly(fn) {
-				continue
-			}
-			n++
-			fmt.Printf("%s: %s %s; mutation at %s; return at %s\n", core.FuncName(fn), f.Record, f.What, p.Pos(f.Mutation.Pos()), p.Pos(f.Return.Pos()))
+		if fn.Signature.Recv() == nil || fn.Signature.Results().Len() != 1 || !strings.HasSuffix(fn.Signature.Results().At(0).Type().String(), "ReturnCode") {
+			continue
 		}
+		core.Instrs(fn, func(in ssa.Instruction) {
+			if !writes(in) {
+				return
+			}
+			esc, _ := core.PathQ{Fn: fn, From: in, Target: func(x ssa.Instruction, _ *ssa.BasicBlock) bool {
+				r, ok := x.(*ssa.Return)
+				if !ok {
+					return false
+				}
+				k, isC := core.ConstInt(r.Results[0])
+				if !isC || k == 0 {
+					return false
+				}
+				// the failure of a writing call itself (marshal error of a saver) is not a validation
+				conds := core.CondsAt(r.Block())
+				if len(conds) > 0 {
+					cd := conds[0]
+					if bo, isBo := cd.V.(*ssa.BinOp); isBo {
+						for _, side := range []ssa.Value{bo.X, bo.Y} {
+							v := side
+							if ex, isEx := v.(*ssa.Extract); isEx {
+								v = ex.Tuple
+							}
+							if call, isCall := v.(*ssa.Call); isCall && writes(call) {
+								return false
+							}
+						}
+					}
+				}
+				return true
+			}}.Escape()
+			if esc != nil {
+				n++
+				fmt.Printf("%s: write at %s then failure at %s\n", core.FuncName(fn), p.Pos(in.Pos()), p.Pos(esc.Pos()))
+			}
+		})
 	}
-	fmt.Println("findings:", n)
+	fmt.Println("sites:", n)
 }
